@@ -104,6 +104,39 @@ def gen_branch_recorder(rng, name):
     return c
 
 
+def gen_late_replay(rng, name):
+    """A recording made over [0, end) replayed (memory backend, absolute times) in a run that STARTS LATER: entries already in the
+    past when the replay starts are history and are skipped; the replay reproduces exactly the ticks from its start on."""
+    end = rng.choice([20, 30, 40])
+    c = Case(name, 0, end)
+    c.scripts[2] = [(t, 100 + t) for t in range(0, end) if rng.random() < 0.6] or [(1, 101)]
+    s2 = rng.choice([t for t in range(1, end - 2)])
+    c.opts["start2"] = s2
+    c.graphs["main"] = [S("a", "src", uid=2, mode=1), S("e", "pass", "a", uid=100), S("", "srecord", "e", key="out", rid="verif.late")]
+    c.graphs["main2"] = [S("d", "sreplay", shape="ts", key="out", rid="verif.late"), S("", "rec", "d", uid=60)]
+    c.meta["kind"] = "late_replay"
+    c.meta["shape"] = "ts"
+    c.meta["start2"] = s2
+    return c
+
+
+def check_late_replay(case, tr):
+    res = Result(signature=case.text().split("\n", 1)[1])
+    if tr.build_error or len(tr.runs) < 2 or any(r.error for r in tr.runs):
+        res.violations.append(Violation(f"staged run did not complete: {tr.build_error or [r.error for r in tr.runs]}"))
+        return res
+    s2 = case.meta["start2"]
+    src = sorted((ue.t, ue.out) for ue in tr.runs[0].uevals() if ue.uid == 100)
+    want = [x for x in src if x[0] >= s2]
+    rep = sorted((ue.t, ue.ins[0][3]) for ue in tr.runs[1].uevals() if ue.uid == 60)
+    if rep != want:
+        res.violations.append(Violation(f"replay started at t={s2} of a recording made from t=0: replayed {rep[:6]}... ({len(rep)} ticks), the original "
+                                        f"ticks from t={s2} on are {want[:6]}... ({len(want)} ticks); entries before the start: {len(src) - len(want)}"))
+    res.counters = {"late_replay_ticks_compared": len(want), "late_replays_with_skipped_history": 1 if len(src) > len(want) else 0}
+    res.nontrivial = len(src) > len(want) and len(want) >= 1
+    return res
+
+
 def check_branch_recorder(case, tr):
     res = Result(signature=case.text().split("\n", 1)[1])
     if tr.build_error or len(tr.runs) < 2 or any(r.error for r in tr.runs):
@@ -129,7 +162,8 @@ def check_branch_recorder(case, tr):
 
 def generate(rng, tier, seed):
     n = scaled(300 if tier == "quick" else 5000)
-    return [gen_case20(rng, f"c20_{seed}_{k}") for k in range(n)] + [gen_branch_recorder(rng, f"c20_{seed}_br{k}") for k in range(n // 6)]
+    return [gen_case20(rng, f"c20_{seed}_{k}") for k in range(n)] + [gen_branch_recorder(rng, f"c20_{seed}_br{k}") for k in range(n // 6)] + \
+        [gen_late_replay(rng, f"c20_{seed}_lr{k}") for k in range(n // 6)]
 
 
 def empty_structural(d):
@@ -337,6 +371,8 @@ def check(case, tr):
         return res
     if case.meta.get("kind") == "branch_recorder":
         return check_branch_recorder(case, tr)
+    if case.meta.get("kind") == "late_replay":
+        return check_late_replay(case, tr)
     if len(tr.runs) < 3:
         res.violations.append(Violation("staged run did not complete"))
         return res
